@@ -6,6 +6,7 @@ package c11
 import (
 	"bytes"
 	"fmt"
+	"os"
 	"testing"
 
 	"github.com/canopy-network/canopy/lib"
@@ -75,8 +76,36 @@ func runChain(t *rapid.T, rec *ev.Rec) {
 	}
 	k := rapid.IntRange(2, 5).Draw(t, "heights")
 	var certified []*lib.QuorumCertificate
+	// 1 chain in 10 is LONG: node A alone runs 97 (empty) heights, B catches up from A's archive, and the generated heights
+	// then cross the first checkpoint height (100: checkpoint in the certificate results, certificate checks while syncing)
+	if rapid.SampledFrom([]int{0, 1, 2, 3, 4, 5, 6, 7, 8, 9, 10, 11}).Draw(t, "longChain") == 0 || os.Getenv("VERIF_C11_LONG") == "1" { // (env: development aid, forces the long mode)
+		solo := &nodesim.Group{Sim: sim, Ring: ring, Nodes: []*nodesim.Node{a}}
+		for a.Height() < 98 {
+			r, err := solo.Step(nodesim.StepOpts{Proposer: 0, Paths: map[int]nodesim.Path{0: nodesim.PathReplay}})
+			if err != nil || !r.OK() {
+				fatalf("long prefix height %d: %v %v", a.Height(), err, r.Err())
+			}
+			certified = append(certified, r.QC)
+		}
+		for h := uint64(1); h < 98; h++ {
+			q, e := a.Serve(h)
+			if e != nil {
+				fatalf("VIOLATION C11: A cannot serve height %d: %v", h, e)
+			}
+			if _, e = b.Deliver(q, true); e != nil {
+				fatalf("VIOLATION C11: B cannot sync height %d of the long prefix: %v", h, e)
+			}
+		}
+		b.FinishSync()
+		if k < 4 {
+			k = 4
+		}
+		cs.Class("long-chain(crosses checkpoint height 100)")
+		cs.Desc("prefix of 97 empty heights")
+	}
 	stale := map[uint64]served{} // what a node served for its TOP height (before the next block re-indexed the last certificate)
 	dropped, reencIncluded, oversize := false, false, false
+	bigDone, bigHeights := false, map[uint64]bool{}
 	for i := 0; i < k; i++ {
 		ht := a.Height()
 		var offered [][]byte
@@ -91,6 +120,58 @@ func runChain(t *rapid.T, rec *ev.Rec) {
 				cs.Desc("h%d:%s", ht, tx.Desc)
 				cs.Class("tx=" + tx.Kind)
 			}
+		}
+		// an occasional BIG block: more than 127 transactions (per-block positions beyond one varint byte / one digit group)
+		if blockSize == 0 && !bigDone && rapid.IntRange(0, 9).Draw(t, "bigBlock") < 3 {
+			bigDone = true
+			nBig := rapid.IntRange(258, 300).Draw(t, "bigTxs") // (length-prefixed uvarint positions first mis-sort at 256)
+			for j := 0; j < nBig; j++ {
+				tx := w.Send(w.Rich[j%4], nodesim.Addr(1, 60+j%7), uint64(1+j), 14000+uint64(j%5)*100, ht, "")
+				offered = append(offered, tx)
+				_, _ = a.AddTx(tx), b.AddTx(tx)
+			}
+			bigHeights[ht] = true
+			cs.Class("big-block(>256 txs)")
+			cs.Desc("h%d:+%d sends", ht, nBig)
+		}
+		// backlog pattern (small block size only): small transactions that nearly fill the block, then - in the mempool's fee
+		// order - a BIG one that no longer fits, then small ones that still would
+		if blockSize != 0 && rapid.Bool().Draw(t, "sizePattern") {
+			limit := int(blockSize - lib.MaxBlockHeaderSize)
+			memo := make([]byte, rapid.SampledFrom([]int{150, 200}).Draw(t, "bigMemo"))
+			for i := range memo {
+				memo[i] = 'b'
+			}
+			fee := uint64(30000)
+			small := func(i int) []byte {
+				fee -= 100
+				return w.Send(w.Rich[i%len(w.Rich)], nodesim.Addr(1, 50+i), uint64(1+i), fee, ht, "")
+			}
+			var pat [][]byte
+			used, i := 0, 0
+			bigAt := func(f uint64) []byte {
+				return w.Send(w.Rich[3], nodesim.Addr(1, 49), 5, f, ht, string(memo))
+			}
+			bigLen := len(bigAt(20000))
+			// small ones while the big one would still fit behind them
+			for used+bigLen <= limit {
+				tx := small(i)
+				pat = append(pat, tx)
+				used += len(tx)
+				i++
+			}
+			fee -= 100
+			pat = append(pat, bigAt(fee)) // does not fit any more
+			for k := 0; k < 2; k++ {      // these may still fit
+				pat = append(pat, small(i))
+				i++
+			}
+			for _, tx := range pat {
+				offered = append(offered, tx)
+				_, _ = a.AddTx(tx), b.AddTx(tx)
+			}
+			cs.Class("size-pattern(small..,BIG,small..)")
+			cs.Desc("h%d:size-pattern %d txs limit=%d", ht, len(pat), limit)
 		}
 		proposer := rapid.IntRange(0, 1).Draw(t, "proposer")
 		ld, other := g.Nodes[proposer], g.Nodes[1-proposer]
@@ -170,6 +251,7 @@ func runChain(t *rapid.T, rec *ev.Rec) {
 			fatalf("VIOLATION C11/C03: A and B hold different headers at height %d", ht)
 		}
 	}
+	top := uint64(len(certified))
 	// ---- a fresh node catches up from the archives ----
 	restartA := rapid.Bool().Draw(t, "restartServer")
 	if restartA {
@@ -183,7 +265,7 @@ func runChain(t *rapid.T, rec *ev.Rec) {
 	cs.ClassIf(live, "C=live-path")
 	cs.ClassIf(!live, "C=sync-path")
 	coldRead := false
-	for h := uint64(1); h <= uint64(k); h++ {
+	for h := uint64(1); h <= top; h++ {
 		src := rapid.IntRange(0, 2).Draw(t, "source")
 		var sv served
 		switch {
@@ -193,7 +275,7 @@ func runChain(t *rapid.T, rec *ev.Rec) {
 		default:
 			n := g.Nodes[src%2]
 			sim.Activate(n)
-			if rapid.Bool().Draw(t, "coldCache") {
+			if rapid.Bool().Draw(t, "coldCache") || bigHeights[h] {
 				store.VerifPurgeBlockCache()
 				coldRead = true
 				if !ev.Open(kfHeaderPoison) {
@@ -234,7 +316,7 @@ func runChain(t *rapid.T, rec *ev.Rec) {
 		c.FinishSync()
 	}
 	// C reached height k with identical block hashes and state roots
-	for h := uint64(1); h <= uint64(k); h++ {
+	for h := uint64(1); h <= top; h++ {
 		qa, e1 := a.Serve(h)
 		qcC, e2 := c.Serve(h)
 		if e1 != nil || e2 != nil {
@@ -243,7 +325,7 @@ func runChain(t *rapid.T, rec *ev.Rec) {
 		if !bytes.Equal(qa.Block, qcC.Block) || !bytes.Equal(qcC.BlockHash, certified[h-1].BlockHash) {
 			fatalf("VIOLATION C11: C holds another block than A at height %d", h)
 		}
-		if !bytes.Equal(mustMarshal(qa.Signature), mustMarshal(qcC.Signature)) && h < uint64(k) {
+		if !bytes.Equal(mustMarshal(qa.Signature), mustMarshal(qcC.Signature)) && h < top {
 			// the last certificate of every height below the top is re-indexed from the next block's header: deterministic
 			fatalf("VIOLATION C11/C03: A and C index different certificate versions for height %d (below the top)", h)
 		}
@@ -254,7 +336,7 @@ func runChain(t *rapid.T, rec *ev.Rec) {
 		fatalf("scan: %v %v", e1, e2)
 	}
 	if !bytes.Equal(mustMarshal(a.LastHeader()), mustMarshal(c.LastHeader())) || nodesim.ScanDigest(sa) != nodesim.ScanDigest(sc) {
-		fatalf("VIOLATION C11: after catch-up C's header/state differs from A's at height %d", k)
+		fatalf("VIOLATION C11: after catch-up C's header/state differs from A's at height %d", top)
 	}
 	// and C is a full participant: it accepts the next proposal of A
 	res, err := g.Certify(0, nil, 0)
